@@ -3,6 +3,6 @@
 set -u
 P="$1"; ID="$2"; T="${3:-quick}"
 git -C /repo diff --quiet || { echo "/repo has uncommitted changes; refusing"; exit 3; }
-trap 'git -C /repo checkout -- .' EXIT INT TERM
+trap 'git -C /repo checkout -- .; git -C /verif checkout -- evidence 2>/dev/null' EXIT INT TERM
 git -C /repo apply "$P" || { echo "patch does not apply"; exit 3; }
 /verif/check "$ID" "$T" 2>&1 | grep -a -E "VIOLATION|INCONCLUSIVE|violations=|^--- failure" | cut -c1-300
